@@ -113,3 +113,101 @@ package lintcmd
 //@   loop 8   invariant [count]    len(out.Diagnostics) == len(loopentry(out.Diagnostics)) + nrep(unuseds, used, xu)
 //@   loop 8   invariant [reported] forall x int :: {unuseds[x]} 0 <= x && x < xu && !isUsed(used, unuseds[x].key) ==> out.Diagnostics[len(loopentry(out.Diagnostics)) + nrep(unuseds, used, x)].Position == unuseds[x].obj.DisplayPosition && out.Diagnostics[len(loopentry(out.Diagnostics)) + nrep(unuseds, used, x)].Category == "U1000" && out.Diagnostics[len(loopentry(out.Diagnostics)) + nrep(unuseds, used, x)].MergeIf == lint.MergeIfAll
 //@   loop 7   invariant [usedtrue] forall k unusedKey :: {used[k]} (k in loopentry(used)) && loopentry(used)[k] ==> (k in used) && used[k]
+
+//@ prop C10
+
+//@ extern strings.ToLower(s string) string
+//@   pure
+//@ extern strings.Split(s string, sep string) []string
+//@   pure
+// globMatch(pattern, name): filepath.Match succeeds (the glob language itself is not modelled)
+//@ ghost globMatch(pattern string, name string) bool
+//@ extern path/filepath.Match(pattern string, name string) (matched bool, err error)
+//@   ensures matched == globMatch(pattern, name)
+
+// a list of (lower-cased, glob) check names names the category cat
+//@ ghost namesCheck(checks []caseFoldedString, cat string, n int) bool = n > 0 && (globMatch(checks[n-1].s, strings.ToLower(cat)) || namesCheck(checks, cat, n-1))
+
+//@ lemma names_hit(checks []caseFoldedString, cat string, k int, m int)
+//@   requires 0 <= k && k < m && globMatch(checks[k].s, strings.ToLower(cat))
+//@   ensures  namesCheck(checks, cat, m)
+//@   induct   m
+//@   trigger  globMatch(checks[k].s, strings.ToLower(cat)), namesCheck(checks, cat, m)
+
+// A line directive suppresses exactly the problems in its file, on its line, whose check one of
+// its names matches; it remembers that it matched.
+//@ func (*lineIgnore).match
+//@   uses     names_hit
+//@   requires li != nil
+//@   modifies li.Matched
+//@   ensures  [hit]     result == (p.Position.Filename == li.File && p.Position.Line == li.Line && namesCheck(li.Checks, p.Category, len(li.Checks)))
+//@   ensures  [matched] li.Matched == (old(li.Matched) || result)
+//@   loop 1   index n
+//@   loop 1   invariant !namesCheck(li.Checks, p.Category, n) && li.Matched == old(li.Matched)
+// A file directive does the same for its whole file.
+//@ func (*fileIgnore).match
+//@   uses     names_hit
+//@   requires fi != nil
+//@   ensures  [hit] result == (p.Position.Filename == fi.File && namesCheck(fi.Checks, p.Category, len(fi.Checks)))
+//@   loop 1   index n
+//@   loop 1   invariant !namesCheck(fi.Checks, p.Category, n)
+
+//@ func makeCaseFoldedString
+//@   pure
+//@   ensures result.s == strings.ToLower(s)
+//@ func makeCaseFoldedStrings
+//@   pure
+//@   ensures  [len]  len(result) == len(ss)
+//@   ensures  [elem] forall i int :: {result[i]} 0 <= i && i < len(ss) ==> result[i].s == strings.ToLower(ss[i])
+//@   loop 1   invariant [len]  len(out) == len(ss)
+//@   loop 1   invariant [elem] forall j int :: {out[j]} 0 <= j && j < i ==> out[j].s == strings.ToLower(ss[j])
+
+// ---- parseDirectives: which directives become ignores, which become errors ----
+//@ ghost isIgnoreCmd(c string) bool = c == "ignore" || c == "file-ignore"
+// a directive without a reason (fewer than two arguments) is an error and suppresses nothing
+//@ ghost wfDir(d runner.SerializedDirective) bool = isIgnoreCmd(d.Command) && len(d.Arguments) >= 2
+//@ ghost badDir(d runner.SerializedDirective) bool = isIgnoreCmd(d.Command) && len(d.Arguments) < 2
+//@ ghost nIg(dirs []runner.SerializedDirective, n int) int = n <= 0 ? 0 : nIg(dirs, n-1) + (wfDir(dirs[n-1]) ? 1 : 0)
+//@ ghost nBad(dirs []runner.SerializedDirective, n int) int = n <= 0 ? 0 : nBad(dirs, n-1) + (badDir(dirs[n-1]) ? 1 : 0)
+//@ lemma nIg_mono(dirs []runner.SerializedDirective, a int, b int)
+//@   requires 0 <= a && a < b
+//@   ensures  nIg(dirs, a) + (wfDir(dirs[a]) ? 1 : 0) <= nIg(dirs, b) && 0 <= nIg(dirs, a)
+//@   induct   b
+//@   trigger  nIg(dirs, a), nIg(dirs, b)
+//@ lemma nBad_mono(dirs []runner.SerializedDirective, a int, b int)
+//@   requires 0 <= a && a < b
+//@   ensures  nBad(dirs, a) + (badDir(dirs[a]) ? 1 : 0) <= nBad(dirs, b) && 0 <= nBad(dirs, a)
+//@   induct   b
+//@   trigger  nBad(dirs, a), nBad(dirs, b)
+
+//@ func parseDirectives
+//@   uses     nIg_mono, nBad_mono
+//@   ensures  [count] len(result0) == nIg(dirs, len(dirs)) && len(result1) == nBad(dirs, len(dirs))
+//@   ensures  [line]  forall j int :: {dirs[j]} 0 <= j && j < len(dirs) && wfDir(dirs[j]) && dirs[j].Command == "ignore" ==> istype(result0[nIg(dirs, j)], *lineIgnore) && astype(result0[nIg(dirs, j)], *lineIgnore).File == dirs[j].NodePosition.Filename && astype(result0[nIg(dirs, j)], *lineIgnore).Line == dirs[j].NodePosition.Line && astype(result0[nIg(dirs, j)], *lineIgnore).Checks == makeCaseFoldedStrings(strings.Split(dirs[j].Arguments[0], ",")) && astype(result0[nIg(dirs, j)], *lineIgnore).Pos == dirs[j].DirectivePosition && !astype(result0[nIg(dirs, j)], *lineIgnore).Matched
+//@   ensures  [file]  forall j int :: {dirs[j]} 0 <= j && j < len(dirs) && wfDir(dirs[j]) && dirs[j].Command == "file-ignore" ==> istype(result0[nIg(dirs, j)], *fileIgnore) && astype(result0[nIg(dirs, j)], *fileIgnore).File == dirs[j].NodePosition.Filename && astype(result0[nIg(dirs, j)], *fileIgnore).Checks == makeCaseFoldedStrings(strings.Split(dirs[j].Arguments[0], ","))
+//@   ensures  [bad]   forall j int :: {dirs[j]} 0 <= j && j < len(dirs) && badDir(dirs[j]) ==> result1[nBad(dirs, j)].Position == dirs[j].NodePosition && result1[nBad(dirs, j)].Category == "compile" && result1[nBad(dirs, j)].Severity == severityError
+//@   loop 1   index n
+//@   loop 1   modifies fresh
+//@   loop 1   invariant [count] len(ignores) == nIg(dirs, n) && len(diagnostics) == nBad(dirs, n)
+//@   loop 1   invariant [alloc] forall j int :: {dirs[j]} 0 <= j && j < n && wfDir(dirs[j]) ==> (dirs[j].Command == "ignore" ==> istype(ignores[nIg(dirs, j)], *lineIgnore) && allocated(astype(ignores[nIg(dirs, j)], *lineIgnore))) && (dirs[j].Command == "file-ignore" ==> istype(ignores[nIg(dirs, j)], *fileIgnore) && allocated(astype(ignores[nIg(dirs, j)], *fileIgnore)))
+//@   loop 1   invariant [line]  forall j int :: {dirs[j]} 0 <= j && j < n && wfDir(dirs[j]) && dirs[j].Command == "ignore" ==> astype(ignores[nIg(dirs, j)], *lineIgnore).File == dirs[j].NodePosition.Filename && astype(ignores[nIg(dirs, j)], *lineIgnore).Line == dirs[j].NodePosition.Line && astype(ignores[nIg(dirs, j)], *lineIgnore).Checks == makeCaseFoldedStrings(strings.Split(dirs[j].Arguments[0], ",")) && astype(ignores[nIg(dirs, j)], *lineIgnore).Pos == dirs[j].DirectivePosition && !astype(ignores[nIg(dirs, j)], *lineIgnore).Matched
+//@   loop 1   invariant [file]  forall j int :: {dirs[j]} 0 <= j && j < n && wfDir(dirs[j]) && dirs[j].Command == "file-ignore" ==> astype(ignores[nIg(dirs, j)], *fileIgnore).File == dirs[j].NodePosition.Filename && astype(ignores[nIg(dirs, j)], *fileIgnore).Checks == makeCaseFoldedStrings(strings.Split(dirs[j].Arguments[0], ","))
+//@   loop 1   invariant [bad]   forall j int :: {dirs[j]} 0 <= j && j < n && badDir(dirs[j]) ==> diagnostics[nBad(dirs, j)].Position == dirs[j].NodePosition && diagnostics[nBad(dirs, j)].Category == "compile" && diagnostics[nBad(dirs, j)].Severity == severityError
+
+// From the property: "A line directive that suppresses nothing is itself reported unless it only
+// names disabled checks or U1000". couldHaveMatched decides the "unless" part: the directive is
+// worth reporting iff some name in its list is neither U1000 nor disabled. (Formalised for the
+// names as written; what "disabled" means for a glob is not specified and not constrained here:
+// the map lookup is by literal name, as in the code.)
+//@ ghost worthReporting(checks []caseFoldedString, allowed map[caseFoldedString]bool, n int) bool = n > 0 && ((checks[n-1].s != "u1000" && get(allowed, checks[n-1])) || worthReporting(checks, allowed, n-1))
+//@ lemma worth_hit(checks []caseFoldedString, allowed map[caseFoldedString]bool, k int, m int)
+//@   requires 0 <= k && k < m && checks[k].s != "u1000" && get(allowed, checks[k])
+//@   ensures  worthReporting(checks, allowed, m)
+//@   induct   m
+//@   trigger  checks[k], worthReporting(checks, allowed, m)
+//@ func filterIgnored$1
+//@   uses     worth_hit
+//@   requires ig != nil
+//@   ensures  [spec] result == worthReporting(ig.Checks, allowedAnalyzers, len(ig.Checks))
+//@   loop 1   index n
+//@   loop 1   invariant !worthReporting(ig.Checks, allowedAnalyzers, n)
